@@ -355,19 +355,19 @@ NOT_YET = "check not built yet (framework under construction); will be claimed w
 ADDED = {
  "C01": " Every shape of the key argument, lists nested in lists included, is covered by theorems verIoF_spec / ver_spec / ver_stream_spec (verdict = specF for one-shot and for every chunking) and nested_all_demands_every_key (F29). Generators: algorithm named only in the unprotected header for every algorithm, that header stripped or relabelled; the ECDSA signature valid for the all-zero digest as mutation and under every single allocation fault; signature arrays paired with key arrays; vacuous and key-set cases streamed.",
  "C02": " direct_refuses_encrypted_key: dir / ECDH-ES recipients with a non-empty encrypted key are refused (F30). Generators: members extended (every byte bound), named and unnamed recipients of general-form tokens, tokens without protected header, protected header re-spelled, passwords differing behind a NUL, mutated tokens through jose_jwe_dec_io.",
- "C04": " dir_joins_only_same_key (F32); wrp_gcmkw_spec now also yields that no shared header defines iv / tag (F28). Generators: aad without protected header, same-kind wrong keys, public-only recipient keys, content keys without alg, encoded empty protected header (F37), the combined streaming entry points jose_jwe_enc_io / jose_jwe_dec_io (same object as the one-shot call, every chunking).",
- "C05": " Generators: names in unprotected / per-recipient headers of the token handed in, general form, JWKSet containers, permissions under inference, asymmetric cross-declarations; names differing behind an embedded NUL are evaluated on every run and reported as the open known finding nul:c-string-compare.",
+ "C04": " dir_joins_only_same_key (F32); wrp_gcmkw_spec now also yields that no shared header defines iv / tag (F28). Generators: aad without protected header, same-kind wrong keys, public-only recipient keys, content keys without alg, encoded empty protected header (F37), the combined streaming entry points jose_jwe_enc_io / jose_jwe_dec_io (same object as the one-shot call, every chunking), uncompressed plaintexts whose ciphertext text exceeds 256 KiB with every header placement.",
+ "C05": " Generators: names in unprotected / per-recipient headers of the token handed in, general form, JWKSet containers, permissions under inference, asymmetric cross-declarations, keys declaring an algorithm of another family with nothing named in the template; names differing behind an embedded NUL are evaluated on every run and reported as the open known finding nul:c-string-compare.",
  "C06": " Generators: key_ops on public / partly private keys and with kty in other letter case, extras named like other types' private members, passwords searched in base64url form too.",
  "C08": " Generators: empty input as (NULL, 0), size queries on non-canonical text, raw NUL in decoded JSON, alphabet-only invalid text through the streamed decoder.",
  "C09": " Generators: every JOSE member a template lacks added with empty / ill-typed values, caller-supplied content keys at the buffer bound through every wrapping family, public-only keys, agreement data at the bound, encoded protected templates; nested key lists are compared with the model for verification.",
- "C10": " kw_wrap_domain / kw_unwrap_domain / kw_refuses_empty on the executable AES key wrap (F27). Generators: RFC 3394 key-data lengths for every KW-based algorithm (wrap and unwrap), ECDSA algorithm x curve x who names the algorithm with an independent ECDSA signer, remote keys given with an inconsistent d, consuming-side keys derived from the genuine one (padded / truncated), undecodable EC members.",
+ "C10": " kw_wrap_domain / kw_unwrap_domain / kw_refuses_empty on the executable AES key wrap (F27). Generators: RFC 3394 key-data lengths for every KW-based algorithm (wrap and unwrap), ECDSA algorithm x curve x who names the algorithm with an independent ECDSA signer, remote keys given with an inconsistent d, consuming-side keys derived from the genuine one (padded / truncated), undecodable EC members, direct ECDH-ES tokens with an invalid ephemeral key or an inconsistent recipient d, PS* verification with small RSA keys (independent EMSA-PSS signer).",
  "C11": " Generators: per-byte freshness of every random output, per-recipient freshness inside one multi-recipient JWE, case variants of kty / crv / alg, bytes beyond 32 bits, RSA sizes other than the default in both tiers, generated exchange keys exchange.",
  "C12": " Generators: RSA keys with every subset of CRT members and symmetric keys through the OpenSSL conversion (F31), NUL-containing member values, extras named like other types' members, non-hash algorithm names.",
  "C13": " Generators: invalid key material in every role and ECMR mode, key_ops shapes, kty spellings with explicit alg.",
- "C14": " Generators: PBES2 password as JSON string at the 1024 bound (wrap and unwrap), every ciphertext text length around the 256 KiB bound in both tiers, wrapped content keys within the bound unwrap again.",
- "C15": " pbes2_salt_not_shadowed / gcmkw_iv_tag_not_shadowed / ecdhes_epk_not_shadowed (F28). jwe_enc_applied_is_recorded now covers a protected header given as an object, absent, or already encoded (accepted since F37: an inferred enc then goes to the shared unprotected header, names_enc_after_set_str). Generators: generated parameters supplied by the caller in each header, one call for several keys with one template (JWE and JWS), encoded protected header in content encryption, unknown / ill-typed protected zip.",
+ "C14": " Generators: PBES2 password as JSON string at the 1024 bound (wrap and unwrap), every ciphertext text length around the 256 KiB bound in both tiers, wrapped content keys within the bound unwrap again, the x of an externally exchanged ECDH-ES key at the bound; zip_limit_unreadable_header (F35).",
+ "C15": " pbes2_salt_not_shadowed / gcmkw_iv_tag_not_shadowed / ecdhes_epk_not_shadowed (F28). jwe_enc_applied_is_recorded now covers a protected header given as an object, absent, or already encoded (accepted since F37: an inferred enc then goes to the shared unprotected header, names_enc_after_set_str). Generators: generated parameters supplied by the caller in each header, one call for several keys with one template (JWE and JWS), encoded protected header in content encryption, unknown / ill-typed protected zip, keys declaring a non-signature algorithm under JWS inference.",
  "C16": " Generators: direct key agreement / direct encryption as first and as later recipient in directed sequences (F32), the command-line tool adding signatures step by step in six input spellings.",
- "C17": " Generators: protected header as object and as every other JSON type, zip tokens, explicit recipients in the read-only battery.",
+ "C17": " Generators: protected header as object and as every other JSON type, zip tokens, explicit recipients in the read-only battery, key sets of one key with a shared template, producing calls in the thread and static-storage runs.",
  "C18": " jwe_fmt_compact_aad_fails (F36). Generators: aad in jwe enc templates with and without -c, jwe fmt -c of tokens with aad.",
  "C19": " Generators: false, base64url text of scalars behind -y, unsigned-range counts for -M / -i (F33), values from files and standard input, strings needing escapes, unopenable output files, long and bundled options, index spellings (the last group judged against the manual on the implementation; the model of the tool has no long names or bundling).",
  "C20": " Generators: one template for several keys (F34), several keys with all=true and one invalid signature, JWEs whose fault-free verdict is failure incl. a compressed token above the size bound (F35), inference / default branches that allocate, RSA1_5 unwrap, the zero-digest ECDSA forgeries.",
